@@ -807,3 +807,101 @@ Proof.
     apply (Hpt i). lia. }
   rewrite Heta, Htp in *. lra.
 Qed.
+
+(* ---------------------------------------------------------------- *)
+(* 13. the season: the per-crop sums the crop record reports.  ETC0 collects the potential ET of every
+   day (water.go:480) and is zeroed on the sowing day (run.go:613); ETAG / TRAG collect what the Water
+   sub-steps book as actual ET / transpiration (water.go:954-973) and are zeroed on the sowing day
+   (crop.go:68-69) and at harvest (nitro.go:428-429, DayWaterModel.season_reset), right after Nitro has
+   copied (ETC0, ETAG, TRAG) into the crop record (nitro.go:391-393).  All resets happen after the day's
+   Evatra and (first) Water call.                                                                    *)
+Record sday := {
+  sd_pet : R;          (* the day's potential ET (VERDU) *)
+  sd_booked : R;       (* actual ET booked that day before the reset/record point: 0 when Water does not book
+                          (not after sowing), a part of the day when the record is taken after sub-step 1 *)
+  sd_tr : R;           (* its transpiration part *)
+  sd_sow : bool;       (* sowing day: the three sums are zeroed *)
+  sd_harvest : bool;   (* harvest: the sums are recorded, ETAG and TRAG zeroed *)
+}.
+
+Definition sday_ok (d : sday) : Prop := 0 <= sd_tr d <= sd_booked d /\ sd_booked d <= sd_pet d.
+Definition sstate_ok (st : R * R * R) : Prop := let '(c, a, t) := st in 0 <= t <= a /\ a <= c.
+
+(* [both] = the sowing block zeroes ETAG/TRAG together with ETC0 (the code); [both = false] is the variant
+   in which only ETC0 is zeroed there *)
+Fixpoint season_run (both : bool) (st : R * R * R) (days : list sday) : list (R * R * R) :=
+  match days with
+  | [] => []
+  | d :: r =>
+      let '(c, a, t) := st in
+      let '(c1, a1, t1) := (c + sd_pet d, a + sd_booked d, t + sd_tr d) in
+      if sd_sow d then season_run both (if both then (0, 0, 0) else (0, a1, t1)) r
+      else if sd_harvest d then (c1, a1, t1) :: season_run both (c1, 0, 0) r
+      else season_run both (c1, a1, t1) r
+  end.
+
+Lemma season_lemma (days : list sday) : forall st,
+  Forall sday_ok days -> sstate_ok st ->
+  Forall (fun rec => let '(etcg, etag, trag) := rec in 0 <= trag <= etag /\ etag <= etcg) (season_run true st days).
+Proof.
+  induction days as [|d r IH]; intros [[c a] t] Hd Hst; cbn [season_run]; [constructor|].
+  pose proof (Forall_inv Hd) as (H1 & H2). pose proof (Forall_inv_tail Hd) as Hr.
+  unfold sstate_ok in Hst. destruct Hst as [Ht Ha].
+  destruct (sd_sow d).
+  - apply IH; [exact Hr | unfold sstate_ok; lra].
+  - destruct (sd_harvest d).
+    + constructor; [lra|]. apply IH; [exact Hr | unfold sstate_ok; lra].
+    + apply IH; [exact Hr | unfold sstate_ok; lra].
+Qed.
+
+(* the sowing reset of ETAG/TRAG is needed: with automatic sowing Water books the fallow's bare-soil
+   evaporation (the sowing date of the next crop is still 0, "zeit > SAAT" holds); a fallow day, the sowing
+   day, one day of growth and the harvest give ETaG > ETcG when only ETC0 is zeroed at sowing *)
+Lemma season_reset_needed :
+  exists days, Forall sday_ok days /\
+    exists etcg etag trag, In (etcg, etag, trag) (season_run false (0, 0, 0) days) /\ etcg < etag.
+Proof.
+  exists [ {| sd_pet := 1; sd_booked := 1; sd_tr := 0; sd_sow := false; sd_harvest := false |};
+           {| sd_pet := 1; sd_booked := 0; sd_tr := 0; sd_sow := true; sd_harvest := false |};
+           {| sd_pet := 1; sd_booked := 1; sd_tr := 0; sd_sow := false; sd_harvest := true |} ].
+  split.
+  - repeat constructor; cbn; lra.
+  - exists (0 + 1), (0 + 1 + 0 + 1), (0 + 0 + 0 + 0). split; [cbn; left; reflexivity | lra].
+Qed.
+
+(* a day of the season from Evatra and the Water sub-steps: transpiration part <= booked <= potential *)
+Lemma season_day_lemma (e : evatra_in (T:=R)) (x : water_in (T:=R)) (n k : nat) :
+  evatra_wf e -> wf_in x n -> wi_subd1 x = true ->
+  wi_tp x = eo_tp (evatra_struct e) -> wi_eta x = eo_eta (evatra_struct e) ->
+  (1 <= k)%nat -> wi_wdt x = / INR k ->
+  sday_ok {| sd_pet := ei_verdu e; sd_booked := booked_aet k x; sd_tr := Rsum (wo_tp (water_step x));
+             sd_sow := false; sd_harvest := false |}.
+Proof.
+  intros He Hwf Hs Htp Heta Hk Hwdt.
+  destruct (booked_le_pet_lemma e x n k He Hwf Hs Htp Heta Hk Hwdt) as [Eb [B0 B1]].
+  destruct (aet_le_pet_lemma e He) as (A1 & _). cbv zeta in A1.
+  unfold sday_ok. cbn [sd_tr sd_booked sd_pet]. rewrite Eb in *. rewrite Heta in *.
+  assert (H0 : 0 <= Rsum (wo_tp (water_step x))).
+  { pose proof (water_step_balance_lemma x n Hwf) as HB. cbv zeta in HB. destruct HB as (_ & _ & _ & Ltp').
+    destruct (aet_le_pet_lemma e He) as (_ & _ & _ & A4 & _). cbv zeta in A4.
+    apply Rsum_nonneg. apply Forall_forall. intros t Hin. destruct (In_nth _ _ 0 Hin) as (i & Hi & <-).
+    destruct Hwf as (Hn & Lwg & Ltp & Hrest).
+    destruct (uptake_avail_lemma x n (conj Hn (conj Lwg (conj Ltp Hrest))) Hs i ltac:(lia)) as [_ H2]. cbv zeta in H2.
+    apply H2. rewrite Htp. unfold get. rewrite Forall_forall in A4. apply A4. apply nth_In. rewrite <- Htp. lia. }
+  lra.
+Qed.
+
+Definition season_stmt : Prop :=
+  (forall (days : list sday) (st : R * R * R), Forall sday_ok days -> sstate_ok st ->
+     Forall (fun rec => let '(etcg, etag, trag) := rec in 0 <= trag <= etag /\ etag <= etcg) (season_run true st days)) /\
+  (forall (e : evatra_in (T:=R)) (x : water_in (T:=R)) (n k : nat),
+     evatra_wf e -> wf_in x n -> wi_subd1 x = true ->
+     wi_tp x = eo_tp (evatra_struct e) -> wi_eta x = eo_eta (evatra_struct e) ->
+     (1 <= k)%nat -> wi_wdt x = / INR k ->
+     sday_ok {| sd_pet := ei_verdu e; sd_booked := booked_aet k x; sd_tr := Rsum (wo_tp (water_step x));
+                sd_sow := false; sd_harvest := false |}) /\
+  (exists days, Forall sday_ok days /\
+     exists etcg etag trag, In (etcg, etag, trag) (season_run false (0, 0, 0) days) /\ etcg < etag).
+
+Lemma season_stmt_lemma : season_stmt.
+Proof. exact (conj season_lemma (conj season_day_lemma season_reset_needed)). Qed.
